@@ -279,7 +279,7 @@ theorem branchInstr_steps (L : Layout) (g : GState) (op : COp) (label : Lbl) (pr
       have hnot : (⟨.ifhere, g.cIf + 1⟩ : Lbl) ∉ labels pre := by
         intro hin
         have := hold _ hin
-        simp [LKind.ctr, GState.ctr] at this
+        simp [LKind.ctr, GState.ctr, Lbl.idx] at this
         omega
       have e : pre ++ [GLine.br .BEQ ⟨.ifhere, g.cIf + 1⟩, .br .BCS label, .lab ⟨.ifhere, g.cIf + 1⟩] ++ post
           = (pre ++ [GLine.br .BEQ ⟨.ifhere, g.cIf + 1⟩, .br .BCS label]) ++ .lab ⟨.ifhere, g.cIf + 1⟩ :: post := by simp
@@ -458,23 +458,211 @@ theorem genCondEx_correct (L : Layout) (g : GState) (l r : Atom) (op : COp) (neg
       have := finalOp_eval op negate false (val L m (Atom.var v)) (val L m r)
       simpa [val] using this
 
-theorem genCond_correct (L : Layout) (g : GState) (c : Cond) (negate : Bool) (label : Lbl) (hok : CondOK c = true) :
-    CondSpec L g (genCond g c negate label) label (fun m => evalCond L m c != negate) := by
-  cases c with
-  | cmp op a b => exact genCondEx_correct L g a b op negate label hok
+/-- the specification of condition code with several tests: as `CondSpec`, except that on the jumping exit
+    the flag belief is claimed only when a single test jumps there (`single`) -/
+def CondSpecM (L : Layout) (g : GState) (r : List GLine × GState) (label : Lbl) (single : Bool) (jumpIf : Mem → Bool) : Prop :=
+  ∀ (pre post : List GLine) (s : Cpu) (t : Nat), Old g pre → FlagsInv L g.flags s →
+    findLbl (pre ++ r.1 ++ post) label = some t →
+    ∃ s', Steps L (pre ++ r.1 ++ post) pre.length s (if jumpIf s.mem then t else pre.length + r.1.length) s' ∧
+      s'.mem = s.mem ∧ s'.x = s.x ∧ s'.y = s.y ∧ s'.sp = s.sp ∧
+      FlagsInv L (if jumpIf s.mem && !single then none else r.2.flags) s'
+
+theorem CondSpec.toM {L : Layout} {g : GState} {r : List GLine × GState} {label : Lbl} {j : Mem → Bool}
+    (h : CondSpec L g r label j) : CondSpecM L g r label true j := by
+  intro pre post s t hold hinv hl
+  obtain ⟨s', hs, hm, hx, hy, hsp, hf⟩ := h pre post s t hold hinv hl
+  exact ⟨s', hs, hm, hx, hy, hsp, by simpa using hf⟩
+
+theorem CondSpecM.congr {L : Layout} {g : GState} {r : List GLine × GState} {label : Lbl} {b : Bool} {j j' : Mem → Bool}
+    (h : ∀ m, j m = j' m) (hs : CondSpecM L g r label b j) : CondSpecM L g r label b j' := by
+  have : j = j' := funext h
+  rw [← this]; exact hs
+
+/-- weakening: a claim for a single exit is also a claim for several -/
+theorem CondSpecM.weaken {L : Layout} {g : GState} {r : List GLine × GState} {label : Lbl} {b : Bool} {j : Mem → Bool}
+    (hs : CondSpecM L g r label b j) : CondSpecM L g r label false j := by
+  intro pre post s t hold hinv hl
+  obtain ⟨s', h1, hm, hx, hy, hsp, hf⟩ := hs pre post s t hold hinv hl
+  refine ⟨s', h1, hm, hx, hy, hsp, ?_⟩
+  cases hj : j s.mem
+  · simpa [hj] using hf
+  · simp [hj]
+
+
+theorem Steps.cast {L : Layout} {code : List GLine} {p1 p1' p2 p2' : Nat} {s s' : Cpu}
+    (h : Steps L code p1 s p2 s') (e1 : p1 = p1') (e2 : p2 = p2') : Steps L code p1' s p2' s' := by
+  subst e1 e2; exact h
+
+/-- positions are sums of lengths -/
+macro "len_arith" : tactic =>
+  `(tactic| first | omega | (simp only [List.length_append, List.length_cons, List.length_nil, List.length_singleton] <;> omega))
+
+/-- two tests in a row that jump to the same label: `a && b` when jumping on false, `a || b` when jumping on true -/
+theorem condSeqBoth (L : Layout) (g : GState) (ra rb : List GLine × GState) (label : Lbl) (sa sb : Bool) (ja jb : Mem → Bool)
+    (ha : CondSpecM L g ra label sa ja) (hb : CondSpecM L ra.2 rb label sb jb) (hfa : Fresh g ra) :
+    CondSpecM L g (ra.1 ++ rb.1, rb.2) label false (fun m => ja m || jb m) := by
+  intro pre post s t hold hinv hl
+  dsimp only at hl ⊢
+  have w1 : pre ++ (ra.1 ++ rb.1) ++ post = pre ++ ra.1 ++ (rb.1 ++ post) := by simp
+  have w2 : pre ++ (ra.1 ++ rb.1) ++ post = (pre ++ ra.1) ++ rb.1 ++ post := by simp
+  obtain ⟨s1, hs1, hm1, hx1, hy1, hsp1, hf1⟩ := ha pre (rb.1 ++ post) s t hold hinv (by rw [← w1]; exact hl)
+  rw [← w1] at hs1
+  rcases Bool.eq_false_or_eq_true (ja s.mem) with hja | hja
+  · -- first test jumps
+    simp only [hja, if_true] at hs1
+    exact ⟨s1, by simpa [hja] using hs1, hm1, hx1, hy1, hsp1, by simp [hja]⟩
+  · -- first test falls through
+    simp only [hja, Bool.false_eq_true, if_false, Bool.false_and] at hs1 hf1
+    have hold1 : Old ra.2 (pre ++ ra.1) := (hold.mono hfa.1).append (Old.of_fresh hfa)
+    obtain ⟨s2, hs2, hm2, hx2, hy2, hsp2, hf2⟩ := hb (pre ++ ra.1) post s1 t hold1 hf1 (by rw [← w2]; exact hl)
+    rw [← w2, hm1] at hs2
+    rw [hm1] at hf2
+    rcases Bool.eq_false_or_eq_true (jb s.mem) with hjb | hjb
+    · simp only [hjb, if_true] at hs2
+      refine ⟨s2, ?_, by rw [hm2, hm1], by rw [hx2, hx1], by rw [hy2, hy1], by rw [hsp2, hsp1], by simp [hjb]⟩
+      simp only [hja, hjb, Bool.or_true, if_true]
+      exact hs1.trans (hs2.cast (by len_arith) rfl)
+    · simp only [hjb, Bool.false_eq_true, if_false] at hs2
+      refine ⟨s2, ?_, by rw [hm2, hm1], by rw [hx2, hx1], by rw [hy2, hy1], by rw [hsp2, hsp1], by simpa [hja, hjb] using hf2⟩
+      simp only [hja, hjb, Bool.or_self, Bool.false_eq_true, if_false]
+      exact hs1.trans (hs2.cast (by len_arith) (by len_arith))
+
+/-- a first test that jumps over the second one to a fresh `.ifstart` label placed behind it:
+    `a && b` when jumping on true, `a || b` when jumping on false -/
+theorem condSkipOver (L : Layout) (g : GState) (ra rb : List GLine × GState) (label : Lbl) (sa sb : Bool) (ja jb : Mem → Bool)
+    (ha : CondSpecM L { g with cIf := g.cIf + 1 } ra ⟨.ifstart, g.cIf⟩ sa ja) (hb : CondSpecM L ra.2 rb label sb jb)
+    (hfa : Fresh { g with cIf := g.cIf + 1 } ra) (hfb : Fresh ra.2 rb) :
+    CondSpecM L g (ra.1 ++ rb.1 ++ [.lab ⟨.ifstart, g.cIf⟩], { rb.2 with flags := none }) label false
+      (fun m => !ja m && jb m) := by
+  intro pre post s t hold hinv hl
+  dsimp only at hl ⊢
+  generalize hst : (⟨.ifstart, g.cIf⟩ : Lbl) = st at *
+  have hk := hfa.1 .cIf
+  simp [GState.ctr] at hk
+  have hold0 : Old { g with cIf := g.cIf + 1 } pre := hold.mono (mono_cIf g)
+  have hold1 : Old ra.2 (pre ++ ra.1) := (hold0.mono hfa.1).append (Old.of_fresh hfa)
+  have hnot : st ∉ labels (pre ++ ra.1 ++ rb.1) := by
+    simp only [labels_append, List.mem_append, not_or]
+    refine ⟨⟨?_, ?_⟩, ?_⟩
+    · intro hin
+      have := hold _ hin
+      rw [← hst] at this
+      simp [LKind.ctr, GState.ctr, Lbl.idx] at this
+      omega
+    · intro hin
+      have := (hfa.2 _ hin).1
+      rw [← hst] at this
+      simp [LKind.ctr, GState.ctr, Lbl.idx] at this
+    · intro hin
+      have := (hfb.2 _ hin).1
+      rw [← hst] at this
+      simp [LKind.ctr, GState.ctr, Lbl.idx] at this
+      omega
+  have w0 : pre ++ (ra.1 ++ rb.1 ++ [GLine.lab st]) ++ post = (pre ++ ra.1 ++ rb.1) ++ GLine.lab st :: post := by simp
+  have w1 : pre ++ (ra.1 ++ rb.1 ++ [GLine.lab st]) ++ post = pre ++ ra.1 ++ (rb.1 ++ [GLine.lab st] ++ post) := by simp
+  have w2 : pre ++ (ra.1 ++ rb.1 ++ [GLine.lab st]) ++ post = (pre ++ ra.1) ++ rb.1 ++ ([GLine.lab st] ++ post) := by simp
+  have hend : pre.length + (ra.1 ++ rb.1 ++ [GLine.lab st]).length = pre.length + ra.1.length + rb.1.length + 1 := by len_arith
+  rw [hend]
+  generalize hwhole : pre ++ (ra.1 ++ rb.1 ++ [GLine.lab st]) ++ post = whole at *
+  have hfind : findLbl whole st = some (pre.length + ra.1.length + rb.1.length) := by
+    rw [w0, findLbl_at _ _ _ hnot]; congr 1; len_arith
+  have hlab : ∀ s2 : Cpu, Steps L whole (pre.length + ra.1.length + rb.1.length) s2 (pre.length + ra.1.length + rb.1.length + 1) s2 := by
+    intro s2
+    have := Steps.single (step_lab L (pre ++ ra.1 ++ rb.1) post st s2)
+    rw [← w0] at this
+    exact this.cast (by len_arith) (by len_arith)
+  obtain ⟨s1, hs1, hm1, hx1, hy1, hsp1, hf1⟩ := ha pre (rb.1 ++ [GLine.lab st] ++ post) s
+    (pre.length + ra.1.length + rb.1.length) hold0 hinv (by rw [← w1]; exact hfind)
+  rw [← w1] at hs1
+  rcases Bool.eq_false_or_eq_true (ja s.mem) with hja | hja
+  · simp only [hja, if_true] at hs1
+    refine ⟨s1, ?_, hm1, hx1, hy1, hsp1, by simp⟩
+    simp only [hja, Bool.not_true, Bool.false_and, Bool.false_eq_true, if_false]
+    exact hs1.trans (hlab s1)
+  · simp only [hja, Bool.false_eq_true, if_false, Bool.false_and] at hs1 hf1
+    obtain ⟨s2, hs2, hm2, hx2, hy2, hsp2, hf2⟩ := hb (pre ++ ra.1) ([GLine.lab st] ++ post) s1 t hold1 hf1 (by rw [← w2]; exact hl)
+    rw [← w2, hm1] at hs2
+    rcases Bool.eq_false_or_eq_true (jb s.mem) with hjb | hjb
+    · simp only [hjb, if_true] at hs2
+      refine ⟨s2, ?_, by rw [hm2, hm1], by rw [hx2, hx1], by rw [hy2, hy1], by rw [hsp2, hsp1], by simp⟩
+      simp only [hja, hjb, Bool.not_false, Bool.and_true, if_true]
+      exact hs1.trans (hs2.cast (by len_arith) rfl)
+    · simp only [hjb, Bool.false_eq_true, if_false] at hs2
+      refine ⟨s2, ?_, by rw [hm2, hm1], by rw [hx2, hx1], by rw [hy2, hy1], by rw [hsp2, hsp1], by simp⟩
+      simp only [hja, hjb, Bool.not_false, Bool.and_false, Bool.false_eq_true, if_false]
+      exact (hs1.trans (hs2.cast (by len_arith) (by len_arith))).trans (hlab s2)
+
+theorem genCond_correct (L : Layout) (c : Cond) : ∀ (g : GState) (negate : Bool) (label : Lbl), CondOK c = true →
+    CondSpecM L g (genCond g c negate label) label c.singleExit (fun m => evalCond L m c != negate) := by
+  induction c with
+  | cmp op a b =>
+    intro g negate label hok
+    exact (genCondEx_correct L g a b op negate label hok).toM
   | truth v =>
+    intro g negate label hok
     simp only [genCond]
     have := zeroTest_correct L g v (finalOp .ne negate false) label (finalOp_unordered .ne negate false rfl)
-    refine this.congr ?_
+    refine (this.congr ?_).toM
     intro m
     have := finalOp_eval .ne negate false (m.read (L v)) 0
     simpa [evalCond, COp.eval] using this
   | nottruth v =>
+    intro g negate label hok
     simp only [genCond]
     have := zeroTest_correct L g v (finalOp .eq negate false) label (finalOp_unordered .eq negate false rfl)
-    refine this.congr ?_
+    refine (this.congr ?_).toM
     intro m
     have := finalOp_eval .eq negate false (m.read (L v)) 0
     simpa [evalCond, COp.eval] using this
+  | not c ih =>
+    intro g negate label hok
+    simp only [genCond, Cond.singleExit]
+    refine (ih g (!negate) label (by simpa [CondOK] using hok)).congr ?_
+    intro m
+    simp only [evalCond]
+    generalize evalCond L m c = x
+    cases x <;> cases negate <;> rfl
+  | and a b iha ihb =>
+    intro g negate label hok
+    simp only [CondOK, Bool.and_eq_true] at hok
+    cases negate with
+    | true =>
+      simp only [genCond, Cond.singleExit]
+      refine (condSeqBoth L g _ _ label _ _ _ _ (iha g true label hok.1) (ihb _ true label hok.2) (genCond_fresh a g true label)).congr ?_
+      intro m
+      simp only [evalCond]
+      generalize evalCond L m a = x
+      generalize evalCond L m b = y
+      cases x <;> cases y <;> rfl
+    | false =>
+      simp only [genCond, Cond.singleExit]
+      refine (condSkipOver L g _ _ label _ _ _ _ (iha _ true _ hok.1) (ihb _ false label hok.2)
+        (genCond_fresh a _ true _) (genCond_fresh b _ false label)).congr ?_
+      intro m
+      simp only [evalCond]
+      generalize evalCond L m a = x
+      generalize evalCond L m b = y
+      cases x <;> cases y <;> rfl
+  | or a b iha ihb =>
+    intro g negate label hok
+    simp only [CondOK, Bool.and_eq_true] at hok
+    cases negate with
+    | false =>
+      simp only [genCond, Cond.singleExit]
+      refine (condSeqBoth L g _ _ label _ _ _ _ (iha g false label hok.1) (ihb _ false label hok.2) (genCond_fresh a g false label)).congr ?_
+      intro m
+      simp only [evalCond]
+      generalize evalCond L m a = x
+      generalize evalCond L m b = y
+      cases x <;> cases y <;> rfl
+    | true =>
+      simp only [genCond, Cond.singleExit]
+      refine (condSkipOver L g _ _ label _ _ _ _ (iha _ false _ hok.1) (ihb _ true label hok.2)
+        (genCond_fresh a _ false _) (genCond_fresh b _ true label)).congr ?_
+      intro m
+      simp only [evalCond]
+      generalize evalCond L m a = x
+      generalize evalCond L m b = y
+      cases x <;> cases y <;> rfl
 
 end CV.GenStruct
